@@ -180,7 +180,7 @@ async def _hist_impl(cfg: str, w: int, ops: list) -> list[str]:
                 # ["begin", mode] ... ["end"]: the ops in between run inside `async with cache.transaction(mode)` (facade only).
                 # A block also ends before the next `adv` / `del` (time does not pass and keys are not deleted inside a
                 # transaction here) and at the end of the history.  Bit-field commands are not buffered: a block changes nothing.
-                if op[0] in ("begin", "end", "adv", "del"):
+                if op[0] in ("begin", "end", "adv", "del", "copy"):
                     await leave_tx()
                     if op[0] == "begin" and cfg == "facade":
                         from cashews import TransactionMode
@@ -194,6 +194,31 @@ async def _hist_impl(cfg: str, w: int, ops: list) -> list[str]:
                 if op[0] == "adv":                      # virtual time passes, nothing touches any key (no purge task: check_interval=0)
                     vtime.CLOCK.advance(op[1])
                     outs.append("r=-")
+                    continue
+                if op[0] == "copy":
+                    # the VALUE of a bit-field key moved to another key with the value commands: what `get` answers for such a
+                    # key (the array) is stored under `dst`; the two keys are independent arrays from then on
+                    src, dst, how = f"bits:{op[1]}", f"bits:{op[2]}", op[3]
+                    ttl = (op[4] if len(op) > 4 else 0) * vtime.TICK or None
+                    if how not in COPY_HOW:
+                        raise HarnessError(f"unknown way to copy {op}")
+
+                    async def do_copy():
+                        value = await api.get(src)
+                        if value is None:
+                            return 0
+                        if how.endswith("set_many"):
+                            await api.set_many({dst: value}, expire=ttl)
+                        else:
+                            await api.set(dst, value, expire=ttl)
+                        return 1
+
+                    if how.startswith("tx_") and cfg == "facade":
+                        async with api.transaction():
+                            done = await do_copy()
+                    else:
+                        done = await do_copy()
+                    outs.append(f"r={done}")
                     continue
                 key = f"bits:{op[1]}"
                 if op[0] == "incr":
@@ -224,7 +249,7 @@ async def _hist_impl(cfg: str, w: int, ops: list) -> list[str]:
     return outs
 
 
-TIMED_OPS = ("expire", "adv", "del", "touch", "begin", "end")
+TIMED_OPS = ("expire", "adv", "del", "touch", "begin", "end", "copy")
 
 
 def _hist_spec(w: int, ops: list):
@@ -236,6 +261,7 @@ def _hist_spec(w: int, ops: list):
     dl: dict = {}           # key -> absolute deadline in ticks (only for live keys with a TTL)
     live: set = set()       # keys that hold an array
     stale: set = set()      # keys whose deadline passed and that no command has touched since (entry physically still stored)
+    copies: set = set()     # {src, dst} pairs a value was copied between
     now = 0
     outs, stats = [], set()
     in_tx = False
@@ -244,7 +270,7 @@ def _hist_spec(w: int, ops: list):
             in_tx = op[0] == "begin"
             outs.append("r=-")
             continue
-        if op[0] in ("adv", "del"):
+        if op[0] in ("adv", "del", "copy"):
             in_tx = False
         elif in_tx:
             stats.add("command_inside_transaction_block")
@@ -260,10 +286,31 @@ def _hist_spec(w: int, ops: list):
                 stats.add("deadline_passed")
             outs.append("r=-")
             continue
+        if op[0] == "copy":
+            src, dst, ttl = op[1], op[2], (op[4] if len(op) > 4 else 0)
+            if src in stale:
+                stats.add("copy_from_run_out_unpurged_entry")
+            stale.discard(src)
+            if src not in live:
+                outs.append("r=0")
+                continue
+            stale.discard(dst)
+            ctr[dst] = dict(ctr.get(src, {}))           # the VALUE: the two keys are independent from here on
+            live.add(dst)
+            if ttl:
+                dl[dst] = now + ttl
+            copies.add(frozenset((src, dst)))
+            stats.add("bit_field_value_copied_to_" + ("itself" if src == dst else "another_key"))
+            outs.append("r=1")
+            continue
         key = op[1]
         c = ctr.setdefault(key, {})
         was_stale = key in stale
         stale.discard(key)
+        if op[0] == "incr" and op[3] and any(key in pair and len(pair) == 2 for pair in copies):
+            stats.add("incr_of_a_key_that_was_copied_from_or_to")
+        if op[0] == "get" and op[2] and "incr_of_a_key_that_was_copied_from_or_to" in stats and any(key in pair and len(pair) == 2 for pair in copies):
+            stats.add("read_of_copy_partner_after_incr")
         if op[0] == "incr":
             by, idxs = op[2], op[3]
             if was_stale and idxs:
@@ -310,26 +357,33 @@ def _hist_spec(w: int, ops: list):
             outs.append(f"r={int(key in live)}")
         else:
             raise HarnessError(f"unknown history op {op}")
-    if len({op[1] for op in ops if op[0] not in ("adv", "begin", "end")}) > 1:
+    if len({op[1] for op in ops if op[0] not in ("adv", "begin", "end")} | {op[2] for op in ops if op[0] == "copy"}) > 1:
         stats.add("two_keys_interleaved")
     return outs, stats
 
 
 def _hist_line(op: list) -> str:
     if op[0] == "incr":
-        return f"incrbits {op[2]} {showl(op[3])}"
+        return f"on {op[1]} incrbits {op[2]} {showl(op[3])}"
     if op[0] == "get":
-        return f"getbits {showl(op[2])}"
+        return f"on {op[1]} getbits {showl(op[2])}"
     if op[0] == "expire":
-        return f"expire {op[2]}"
+        return f"on {op[1]} expire {op[2]}"
     if op[0] == "adv":
-        return f"adv {op[1]}"
-    return {"del": "del", "touch": "touch"}[op[0]]
+        return f"madv {op[1]}"
+    if op[0] == "copy":
+        return f"copy {op[1]} {op[2]} {op[4] if len(op) > 4 else 0}"
+    return f"on {op[1]} " + {"del": "del", "touch": "touch"}[op[0]]
+
+
+COPY_HOW = ("set", "set_many", "tx_set", "tx_set_many")
 
 
 def eval_hist(cases: list[dict]) -> list[Res]:
     """case = {kind:'hist', cfg, w, ops:[['incr', key, by, [idx..]] | ['get', key, [idx..]] | ['expire', key, ttl_ticks] |
-    ['del', key] | ['touch', key] | ['adv', ticks]]}  (timed ops only with cfg memory / facade)"""
+    ['del', key] | ['touch', key] | ['adv', ticks] | ['begin', mode] | ['end'] | ['copy', src, dst, how, ttl_ticks]]}
+    (everything but incr / get only with cfg memory / facade).  copy = the bit-field VALUE of `src` read with `get` and
+    written to `dst` with `set` / `set_many`, plainly or inside a transaction of its own"""
     out, lines, where = [], [], []
     for ci, c in enumerate(cases):
         r = Res()
@@ -340,16 +394,13 @@ def eval_hist(cases: list[dict]) -> list[Res]:
         for k, (o, s) in enumerate(zip(impl, spec)):
             if o != s and r.diff_spec is None:
                 r.diff_spec = f"step {k} {ops[k]} (width {w}, {c['cfg']}): implementation {o}, independent saturating counters {s}"
-        for key in sorted({op[1] for op in ops if op[0] not in ("adv", "begin", "end")}):
-            lines.append(f"bits {w}")
-            where.append(None)
-            for k, op in enumerate(ops):        # one model instance per key; time passes for every key
-                if op[0] in ("begin", "end"):   # no step of the model (Model/Bloom.lean, "controls of the facade")
-                    continue
-                if op[0] != "adv" and op[1] != key:
-                    continue
-                lines.append(_hist_line(op))
-                where.append((ci, k))
+        lines.append(f"mbits {w}")           # one model of the whole store: every key its own slot, one clock
+        where.append(None)
+        for k, op in enumerate(ops):
+            if op[0] in ("begin", "end"):       # no step of the model (Model/Bloom.lean, "controls of the facade")
+                continue
+            lines.append(_hist_line(op))
+            where.append((ci, k))
         out.append(r)
     answers = DRIVER.ask(lines) if lines else []
     for ans, wh, line in zip(answers, where, lines):
@@ -751,6 +802,8 @@ async def _bloom_impl(c: dict):
         params = bloom_params(c["capacity"], c["fp"])
         filter_key = f"bloom:{tpl}:{params[0]}" if not isinstance(params, str) else None
 
+        written: set = set()        # every index a successful func.set has sent to the filter's key
+
         async def one(st, ctl):
             kind = st[0]
             del rec[:], calls[:]
@@ -767,6 +820,9 @@ async def _bloom_impl(c: dict):
                         outcome = "T" if res else "F"
                     except Exception as e:  # noqa: BLE001
                         outcome = "E:" + type(e).__name__
+                for n_, k_, i_, _ in rec:
+                    if n_ == "incr_bits" and k_ == filter_key and outcome == "T" and not (ctl == "dis:incr_bits"):
+                        written.update(i_)
                 steps.append({"kind": kind, "el": list(el), "tn": tn, "ctl": ctl, "call": show_call((args, kwargs)) + (f" [tn={tn!r}]" if ctx else ""),
                               "key": key, "impl": outcome, "called": bool(calls),
                               "backend": [(n, k, sorted(i), kw2) for n, k, i, kw2 in rec], "nidx": [len(i) for _, _, i, _ in rec]})
@@ -783,6 +839,27 @@ async def _bloom_impl(c: dict):
                     outcome = str(int(await be.delete(filter_key)))
                 elif kind == "touch":
                     outcome = str(int(await be.exists(filter_key)))
+                elif kind == "backup":
+                    # the filter's VALUE copied to a backup key with the value commands, then the BACKUP wiped bit by bit:
+                    # the two keys are independent arrays, the live filter must not notice
+                    bak = filter_key + ":bak"
+                    value = await be.get(filter_key)
+                    if value is None:
+                        outcome = "0"
+                    else:
+                        if st[1].endswith("set_many"):
+                            await be.set_many({bak: value})
+                        else:
+                            await be.set(bak, value)
+                        idxs = sorted(written)
+                        live_bits = await be.get_bits(filter_key, *idxs)
+                        before = await be.get_bits(bak, *idxs)
+                        await be.incr_bits(bak, *idxs, by=-1)
+                        after = await be.get_bits(bak, *idxs)
+                        live_after = await be.get_bits(filter_key, *idxs)
+                        ok = before == live_bits and not any(after) and live_after == live_bits
+                        outcome = "-" if ok else f"?filter {live_bits} backup {before}; backup wiped: backup {after} filter {live_after}"
+                    del rec[:]
                 else:
                     raise HarnessError(f"unknown bloom step {st}")
             except HarnessError:
@@ -886,6 +963,12 @@ def eval_bloom(cases: list[dict]) -> list[Res]:
                         r.stats.add("filter_deadline_set")
                     stale = False
                     lines.append(f"bexpire {st['arg']}")
+                elif kind == "backup":      # another key: no step of the filter's model
+                    r.stats.add("filter_value_copied_to_a_backup_key_and_the_backup_wiped")
+                    if st["impl"] != ("-" if live else "0") and r.diff_spec is None:
+                        r.diff_spec = f"step {si}: backup of the filter's key with get + {st['arg']} and wiping the backup: {st['impl']}"
+                    stale = False
+                    continue
                 elif kind == "del":
                     added, nadded, deadline, live, stale = {}, 0, None, False, False
                     lines.append("bdel")
